@@ -295,3 +295,121 @@ def snapshot(tx):
 
 def hex64(n: int) -> str:
     return "%064x" % n
+
+
+# ------------------------------------------------------------------ observing Tx.check_solution (no source change)
+
+import contextlib
+
+
+@contextlib.contextmanager
+def _patched(obj, name, value):
+    had = name in vars(obj)
+    old = vars(obj).get(name)
+    setattr(obj, name, value)
+    try:
+        yield
+    finally:
+        if had:
+            setattr(obj, name, old)
+        else:
+            delattr(obj, name)
+
+
+def observe_checksol(tx, idx, flags=None):
+    """run tx.check_solution(idx) with recording wrappers around the closures of _make_sighash_f /
+    _make_witness_sighash_f and around generator.verify.  Returns (trace, vmap, vals, outcome):
+    trace = [(kind, hash_type, script_code, sig_blobs, result)], vals = the messages handed to generator.verify,
+    vmap[j] = index in trace of the closure call that produced vals[j] (-1 if none), outcome = 'ok' | exception class name"""
+    from pycoin.ecdsa.secp256k1 import secp256k1_generator as G
+    cls = tx.SolutionChecker
+    trace, vals = [], []
+
+    def wrap_factory(orig, kind):
+        def factory(self, tx_in_idx):
+            inner = orig(self, tx_in_idx)
+
+            def closure(hash_type, sig_blobs, vm):
+                r = inner(hash_type, sig_blobs, vm)
+                trace.append((kind, hash_type, bytes(vm.script[vm.begin_code_hash:]), [bytes(s) for s in (sig_blobs or [])], r))
+                return r
+            return closure
+        return factory
+
+    orig_verify = G.verify
+
+    def verify(public_pair, val, sig):
+        vals.append(val)
+        return orig_verify(public_pair, val, sig)
+
+    with _patched(cls, "_make_sighash_f", wrap_factory(cls._make_sighash_f, "legacy")), \
+            _patched(cls, "_make_witness_sighash_f", wrap_factory(cls._make_witness_sighash_f, "witness")), \
+            _patched(G, "verify", verify):
+        try:
+            if flags is None:
+                tx.check_solution(idx)
+            else:
+                tx.check_solution(idx, flags=flags)
+            outcome = "ok"
+        except Exception as e:  # noqa: BLE001
+            outcome = type(e).__name__
+    vmap = []
+    for v in vals:
+        js = [j for j, t in enumerate(trace) if t[4] == v]
+        vmap.append(js[-1] if js else -1)
+    return trace, vmap, vals, outcome
+
+
+# ------------------------------------------------------------------ signed transactions over the standard puzzle kinds
+
+KEYS = [1001, 1002, 1003, 0x7FFFFFFF12345]
+_SIGN_CACHE = {}
+
+
+def puzzles(coin):
+    """(name, puzzle script, p2sh/p2wsh scripts needed to solve it) for the standard kinds of the network"""
+    from pycoin.ecdsa.secp256k1 import secp256k1_generator as G
+    from pycoin.encoding.hash import hash160
+    from pycoin.encoding.sec import public_pair_to_sec
+    if coin in _SIGN_CACHE:
+        return _SIGN_CACHE[coin]
+    net = txlib.NETS[coin]
+    secs = [public_pair_to_sec(G * k, compressed=True) for k in KEYS]
+    usec = public_pair_to_sec(G * KEYS[3], compressed=False)
+    ms = net.contract.for_multisig(2, secs[:3])
+    res = [("p2pkh", net.contract.for_p2pkh(hash160(secs[0])), []),
+           ("p2pkh_u", net.contract.for_p2pkh(hash160(usec)), []),
+           ("p2pk", net.contract.for_p2pk(secs[1]), []),
+           ("p2sh_ms", net.contract.for_p2sh(hash160(ms)), [ms]),
+           ("ms", ms, [])]
+    if hasattr(net.contract, "for_p2pkh_wit"):
+        res.append(("p2wpkh", net.contract.for_p2pkh_wit(hash160(secs[1])), []))
+        res.append(("p2wsh_ms", net.contract.for_p2sh_wit(hashlib.sha256(ms).digest()), [ms]))
+        w = net.contract.for_p2pkh_wit(hash160(secs[2]))
+        res.append(("p2sh_p2wpkh", net.contract.for_p2sh(hash160(w)), [w]))
+    _SIGN_CACHE[coin] = res
+    return res
+
+
+def sign_tx(coin, kinds, hash_type, n_out=2, version=1, lock_time=0, sequences=None, amounts=None):
+    """a transaction of the coin's class with one input per puzzle kind, signed by pycoin itself with `hash_type`"""
+    from pycoin.ecdsa.secp256k1 import secp256k1_generator as G
+    from pycoin.solve.utils import build_hash160_lookup, build_p2sh_lookup
+    T = TX(coin)
+    pz = {n: (s, extra) for n, s, extra in puzzles(coin)}
+    ins, us, scripts = [], [], []
+    for j, kd in enumerate(kinds):
+        s, extra = pz[kd]
+        seq = 0xFFFFFFFF if sequences is None else sequences[j]
+        ins.append(T.TxIn(bytes([0x21 + j]) * 32, j, b"", seq))
+        us.append(T.TxOut((10000 + 1000 * j) if amounts is None else amounts[j], s))
+        scripts += extra
+    outs = [T.TxOut(4000 + 100 * j, pz["p2pkh"][0] if j % 2 == 0 else b"\x51") for j in range(n_out)]
+    tx = T(version, ins, outs, lock_time)
+    tx.set_unspents(us)
+    tx.sign(build_hash160_lookup(KEYS, [G]), hash_type=hash_type, p2sh_lookup=build_p2sh_lookup(scripts))
+    return tx
+
+
+def us_of(tx):
+    return [None if u is None else (u.coin_value, bytes(u.script)) for u in tx.unspents]
